@@ -933,30 +933,6 @@ def parenthesized_span(run, R="SPAN"):
               "parse_parenthesized returns the inner expression unchanged: its span starts after the `(`, so `#d8 (1 + 2) * 300` is reported (and listed) as `1 + 2) * 300`")
 
 
-def duplicate_later_blamed(run, R="SPAN"):
-    """declarations are not collected in source order (functions after symbols, the contents of #if blocks last), so the span given
-    to `SymbolManager::declare` is not necessarily the later of the two: the duplicate error is located at a span chosen by
-    comparing the two locations, not unconditionally at the span being declared"""
-    from rules_sym import deep
-    f = None
-    for g in run.prog.real_fns():
-        if re.search(r"SymbolManager::<T>::declare$", g.id):
-            f = g
-    if f is None:
-        run.violation(R, R + "|duplicate|anchor", "-", "mechanism not found: SymbolManager::declare")
-        return
-    span_params = ["P%d" % i for i in range(1, f.arg_count + 1) if (f.local_ty(i) or "").endswith("Span")]
-    pushes = [(bi, t) for bi, t in f.calls() if (t.get("callee") or "").endswith("Report::push_parent")]
-    cmp_ = False
-    for bi, si, st in f.stmts():
-        if st["k"] == "assign" and st["rv"]["k"] == "binop" and st["rv"]["op"] in ("Lt", "Gt", "Le", "Ge"):
-            if any("Span::location" in deep(f, o_, 8) for o_ in (st["rv"]["l"], st["rv"]["r"])):
-                cmp_ = True
-    ok = bool(pushes) and cmp_ and all(deep(f, t["args"][2], 6) not in span_params for bi, t in pushes)
-    run.check(ok, R, R + "|duplicate|later-blamed", f.loc(), "a duplicate declaration is located at the later of the two spans (chosen by comparing their locations)",
-              "SymbolManager::declare locates the duplicate error at whichever declaration was collected second: `#fn f(x) => x + 1` on line 1 and a label `f:` on line 4 are reported at line 1, the valid declaration (functions are collected after labels; the contents of #if blocks last)")
-
-
 def const_str_slices(run, R="UNIT4"):
     """a text is never sliced at a constant, non-zero byte offset unless the bytes before it are known to be one-byte characters:
     `&text[..4]` panics when a multi-byte character straddles byte 4.  The three sites of the pinned tree follow a test of the
